@@ -42,7 +42,7 @@ func main() {
 	n := run.Pick(3000, 60000)
 	run.Units("hist", n, 0, func(unit int64, r *rand.Rand) {
 		o := wit.HistOpts{Gen: gen.Opts{NLogs: 1 + r.IntN(3), MaxSize: 40, Branches: 2 + r.IntN(3), ShareKeys: true, Big: unit%10 == 9, BigBits: 40},
-			MinSteps: 20, MaxSteps: 60, FaultProb: 0.08, RawSQL: true, Dir: dir}
+			MinSteps: 20, MaxSteps: 60, FaultProb: 0.08, DriverFaults: true, RawSQL: true, Dir: dir}
 		h, err := wit.RunHistory(r, o, func(h *wit.Hist, s *wit.Step, i int) { judge(run, unit, h, s) })
 		defer h.Close()
 		if err != nil {
